@@ -121,7 +121,7 @@ Lemma build_code_tokens_now (T : Type) (sigt : bytes -> option (list T)) :
                      sigt (a ++ b) = Some (ta ++ tb)) ->
   (forall a ta, sigt a = Some ta -> sigt (a ++ [10]) = Some ta) ->
   sigt [] = Some [] ->
-  (forall ls q, from_lines ls = Ok q -> sigt (concat (echo_lines q)) = sigt (concat ls)) ->
+  (forall ls q t, from_lines ls = Ok q -> sigt (concat ls) = Some t -> sigt (concat (echo_lines q)) = Some t) ->
   forall cwd fs lua_path fuel main_path main_content out,
   build_code_now cwd fs lua_path fuel main_path main_content = Ok out ->
   exists r pk, build_lua_now cwd fs lua_path fuel main_path main_content = Ok (r, pk) /\
